@@ -82,6 +82,7 @@ def _with_target(F, f, t):
     return None
 
 
+INLINE_DROPS = True
 CALL_TRAITS = ("std::ops::FnOnce::call_once", "std::ops::FnMut::call_mut", "std::ops::Fn::call")
 
 
@@ -229,7 +230,7 @@ def inline_function(F, f, cm, done, depth=0):
         blk = blocks[i]
         i += 1
         t = blk["term"]
-        if t["t"] == "drop" and not blk["cleanup"] and not t.get("glue_only") and depth < MAX_DEPTH:
+        if t["t"] == "drop" and INLINE_DROPS and not blk["cleanup"] and not t.get("glue_only") and depth < MAX_DEPTH:
             # dropping a value of a NEW type (its Drop impl is not in the inventory): run the user Drop body here, then the field glue.
             # This is what makes an RAII guard introduced by a refactor visible to rules that look at one body.
             a = F.adts.get(t.get("adt") or "")
@@ -339,7 +340,11 @@ def _tls_type(t, key_ty):
 class InlinedFacts:
     """A view of a Facts object in which single-caller private helpers are inlined into their callers."""
 
-    def __init__(self, F):
+    def __init__(self, F, inline_drops=True):
+        global INLINE_DROPS
+        INLINE_DROPS = inline_drops
+        self.inline_drops = inline_drops
+        self._nodrop = None
         self.raw_facts = F
         self.config = F.config
         self.meta = F.meta
@@ -362,6 +367,17 @@ class InlinedFacts:
                     self.consumed.add(g)
         self.fns = {p: f for p, f in allfns.items() if p not in self.consumed}
         self.all_fns = allfns
+
+    def nodrop(self):
+        """the same view without Drop bodies spliced in at drop terminators: the typestate rules (FD-PATH, ALLOC-PAIR, ...) work from
+        Drop *summaries* (a value moved into an owning type is released there), which inlined drop glue would count a second time"""
+        if not self.inline_drops:
+            return self
+        if self._nodrop is None:
+            self._nodrop = InlinedFacts(self.raw_facts, inline_drops=False)
+            global INLINE_DROPS
+            INLINE_DROPS = True
+        return self._nodrop
 
     # same API as Facts
     def fn(self, path):
